@@ -60,6 +60,7 @@ func extractTables(files map[string]*srcFile) (map[string]lval, []string) {
 	ev, co, as := files["evaluate.go"], files["coerce.go"], files["grammar/ast.go"]
 	pkg := rootFiles(files, "evaluate.go", "coerce.go", "options.go", "bexpr.go", "filter.go")
 	vals := map[string]lval{}
+	kindTablePkg = pkg
 
 	// a. eqFnTable
 	eqTable, _ := kindTable(findFn("primitiveEqualityFn", pkg...), "primitiveEqualityFn", false, returnsIdent, func(sf *srcFile, body []ast.Stmt) string {
@@ -332,6 +333,74 @@ var nilValueGuardToks = []string{"if", "expression", ".", "Value", "==", "nil", 
 
 // kindTable reads a function whose body is (an optional nil-Value guard and)
 // one `switch <reflect.Kind parameter> { case reflect.X, ...: <body> }`.
+// kindTablePkg: the files in which a package-level table (`var t = map[reflect.Kind]T{…}`) that a kind
+// function merely indexes is looked up
+var kindTablePkg []*srcFile
+
+// kindMapTable reads `return t[kind]` where t is a package-level map literal keyed by reflect kinds whose
+// values are plain identifiers: one row per key, and the zero value (nil) as the default row.
+func kindMapTable(f *fnDecl, stmts []ast.Stmt, kindParams map[string]bool) ([][2]string, bool) {
+	if len(stmts) != 1 {
+		return nil, false
+	}
+	ret, ok := stmts[0].(*ast.ReturnStmt)
+	if !ok || len(ret.Results) != 1 {
+		return nil, false
+	}
+	ix, ok := ret.Results[0].(*ast.IndexExpr)
+	if !ok {
+		return nil, false
+	}
+	tab, ok1 := ix.X.(*ast.Ident)
+	key, ok2 := ix.Index.(*ast.Ident)
+	if !ok1 || !ok2 || !kindParams[key.Name] {
+		return nil, false
+	}
+	for _, sf := range kindTablePkg {
+		if sf == nil || sf.file == nil {
+			continue
+		}
+		for _, d := range sf.file.Decls {
+			gd, ok := d.(*ast.GenDecl)
+			if !ok || gd.Tok != token.VAR {
+				continue
+			}
+			for _, sp := range gd.Specs {
+				vs, ok := sp.(*ast.ValueSpec)
+				if !ok || len(vs.Names) != 1 || vs.Names[0].Name != tab.Name || len(vs.Values) != 1 {
+					continue
+				}
+				cl, ok := vs.Values[0].(*ast.CompositeLit)
+				if !ok {
+					return nil, false
+				}
+				mt, ok := cl.Type.(*ast.MapType)
+				if !ok {
+					return nil, false
+				}
+				if pk, name, ok := pkgSel(mt.Key); !ok || pk != "reflect" || name != "Kind" {
+					return nil, false
+				}
+				var out [][2]string
+				for _, el := range cl.Elts {
+					kv, ok := el.(*ast.KeyValueExpr)
+					if !ok {
+						return nil, false
+					}
+					pk, name, ok := pkgSel(kv.Key)
+					id, isID := kv.Value.(*ast.Ident)
+					if !ok || pk != "reflect" || !isID {
+						return nil, false
+					}
+					out = append(out, [2]string{name, id.Name})
+				}
+				return append(out, [2]string{"default", "nil"}), true
+			}
+		}
+	}
+	return nil, false
+}
+
 func kindTable(f *fnDecl, fname string, allowGuard bool, caseVal, defVal func(*srcFile, []ast.Stmt) string) (out [][2]string, guard bool) {
 	if f == nil || f.fd.Body == nil {
 		return [][2]string{{"unknown:missing", unk("func " + fname + " not found")}}, false
@@ -351,6 +420,9 @@ func kindTable(f *fnDecl, fname string, allowGuard bool, caseVal, defVal func(*s
 	if allowGuard && len(stmts) > 0 && sameStrings(sf.toks(stmts[0]), nilValueGuardToks) {
 		guard = true
 		stmts = stmts[1:]
+	}
+	if rows, ok := kindMapTable(f, stmts, kindParams); ok {
+		return rows, guard
 	}
 	seen := false
 	for _, st := range stmts {
